@@ -6,6 +6,7 @@
 From Coq Require Import NArith List.
 Import ListNotations.
 From CXV Require Import Gen.Blocks Parse.BlocksSM Parse.BlocksSpec Parse.BlocksThms.
+From CXV Require Import Gen.TokTy Parse.Declarator Parse.DeclSpec Parse.BaseClause.
 Open Scope N_scope.
 
 (* the access delivered with a member equals the backward-scan specification
@@ -20,9 +21,27 @@ Theorem access_in_force_partial :
     acc = bs 0 (rev p).
 Proof. exact access_in_force_sem. Qed.
 
+(* base clauses (bases named by an identifier): every base is reported once,
+   in order, with its virtual and pack flags; a base written without an access
+   keyword has the class-key default whatever the bases before it said, a base
+   written with one has that one; `virtual` may stand before or after the
+   access keyword.  Lists of any length. *)
+Theorem base_clause_decodes_partial : forall default ws rest,
+  forallb access_ok ws = true -> ws <> [] -> after_bases_ok rest = true ->
+  bases (length ws) default [] (join_comma (map wbase_toks ws) ++ rest) = DOk (map (resolve default) ws, rest).
+Proof. exact base_clause_roundtrip. Qed.
+
 Print Assumptions access_in_force_partial.
+Print Assumptions base_clause_decodes_partial.
 
 Example c03_nonvacuous :
   sem noskip (sfinal noskip sinit [EvOpen KClass 1; EvAccess 2; EvOpen KClass 2; EvAccess 3; EvClose]) [EvItem 16]
   = [CbItem 16 1 2] /\ bs 0 (rev [EvOpen KClass 1; EvAccess 2; EvOpen KClass 2; EvAccess 3; EvClose]) = 2.
 Proof. vm_compute. split; reflexivity. Qed.
+
+Example c03_bases_run :
+  bases 3 T_private []
+    (join_comma (map wbase_toks [mkW (Some T_public) 1 false false false; mkW None 2 true true false; mkW (Some T_protected) 3 true false true])
+     ++ [ktok T_LIT_123])
+  = DOk ([mkBase T_public 1 false false; mkBase T_private 2 true false; mkBase T_protected 3 true true], [ktok T_LIT_123]).
+Proof. vm_compute. reflexivity. Qed.
